@@ -39,6 +39,7 @@ type fam struct {
 	queries  []mvsfake.Query
 	rotated  bool // also start from root sets whose requirement names are rotated
 	depth    int  // operations per sequence
+	noSpell  bool // no non-canonical path spellings (the big family)
 }
 
 func natName(p string) string {
@@ -253,11 +254,45 @@ func (s state) hasPath(p string) (string, bool) {
 type op struct {
 	kind string // tidy upgrade-all get
 	q    mvsfake.Query
+	// spell != "": the same query with the project path spelled non-canonically (explicit
+	// @v1/@v0 major, trailing slash, "./" inside); canon is the index of the canonical twin
+	spell string
+	canon int
+}
+
+// arg is the argument handed to Get.
+func (o op) arg() string {
+	q := o.q
+	if o.spell != "" {
+		q.Path = o.spell
+	}
+	return q.String()
+}
+
+// spellings lists non-canonical spellings of a module path.
+func spellings(p string, v0 bool) []string {
+	base, major := mvsfake.SplitMajor(p)
+	suffix := ""
+	if major != "" {
+		suffix = "@" + major
+	}
+	var out []string
+	if major == "" {
+		out = append(out, base+"@v1")
+		if v0 {
+			out = append(out, base+"@v0")
+		}
+	}
+	out = append(out, base+"/"+suffix)
+	if k := strings.LastIndexByte(base, '/'); k > 0 {
+		out = append(out, base[:k]+"/./"+base[k+1:]+suffix)
+	}
+	return out
 }
 
 func (o op) String() string {
 	if o.kind == "get" {
-		return "Get(" + o.q.String() + ")"
+		return "Get(" + o.arg() + ")"
 	}
 	return map[string]string{"tidy": "Tidy", "upgrade-all": "UpgradeAll"}[o.kind]
 }
@@ -430,7 +465,7 @@ func (e *explorer) apply(si *sinfo, oi int) *trans {
 		case "upgrade-all":
 			return mvs.UpgradeAll(e.ctx, cfg, e.res)
 		}
-		return mvs.Get(e.ctx, cfg, e.res, o.q.String())
+		return mvs.Get(e.ctx, cfg, e.res, o.arg())
 	})
 	tr.status = st
 	if st == mvsfake.Skipped {
@@ -488,8 +523,51 @@ func cmpList(a, b map[string]string) string {
 }
 
 // check applies the oracle to one executed transition.
+// checkSpelling: a non-canonical spelling of the project path must either be rejected or give
+// exactly the requirement map of the canonical spelling (the canonical twin carries all the
+// other oracles).
+func (e *explorer) checkSpelling(si *sinfo, oi int) {
+	o := e.ops[oi]
+	tr := e.apply(si, oi)
+	tc := e.apply(si, o.canon)
+	class := func(c string) { e.t.Outcome("classes", fmt.Sprintf("spelling/%s/%s", qGroup(o.q.Kind), c)) }
+	switch {
+	case tr.status != mvsfake.Done:
+		class("hang-or-skipped")
+	case tr.err != "":
+		class("rejected")
+		e.t.Add("spellings-rejected", 1)
+	case tc.status != mvsfake.Done:
+		class("canonical-not-available")
+	default:
+		what := ""
+		switch {
+		case tc.err != "":
+			what = fmt.Sprintf("returned %v although the canonical spelling %s fails: %s", e.states[tr.to].s, e.ops[o.canon], tc.err)
+		case tc.to != tr.to:
+			what = fmt.Sprintf("returned %v, the canonical spelling %s returns %v", e.states[tr.to].s, e.ops[o.canon], e.states[tc.to].s)
+		}
+		if what == "" {
+			class("same-as-canonical")
+			e.t.Add("spellings-agree", 1)
+			return
+		}
+		class("differs")
+		canon := any("error: " + tc.err)
+		if tc.to != "" {
+			canon = e.states[tc.to].s
+		}
+		e.t.Violation("C11:query-path-spelling", e.size(si), fmt.Sprintf("[%s #%d] %s on %v (build list %s): %s", e.f.name, e.ui, o, si.s, mvsfake.FormatList(si.bl), what),
+			e.replayOf(si, o, map[string]any{"returned": e.states[tr.to].s, "returned_build_list": mvsfake.FormatList(e.states[tr.to].bl), "canonical_operation": e.ops[o.canon].String(), "canonical_result": canon}))
+	}
+}
+
 func (e *explorer) check(si *sinfo, oi int) {
 	o := e.ops[oi]
+	if o.spell != "" {
+		e.checkSpelling(si, oi)
+		return
+	}
 	tr := e.apply(si, oi)
 	group := o.kind
 	if o.kind == "get" {
@@ -810,7 +888,7 @@ func (e *explorer) run(initial []state) {
 		e.t.Add("states-expanded", 1)
 		for oi := range e.ops {
 			e.check(si, oi)
-			if tr := si.tr[oi]; tr.to != "" {
+			if tr := si.tr[oi]; tr.to != "" && e.ops[oi].spell == "" { // a spelled query's result is its canonical twin's, or a reported violation
 				ni := e.states[tr.to]
 				if !expanded[tr.to] && si.depth+1 < e.f.depth {
 					queue = append(queue, ni)
@@ -949,6 +1027,7 @@ func main() {
 		bigLevel, bigRefs = 2, true
 	}
 	big := generic(&mvsfake.Family{Name: "2x2+1", Addr: "example.com", Projects: []mvsfake.ProjectDef{pa, pb, one("c", "v1.0.0")}}, bigLevel, bigRefs, false, depth)
+	big.noSpell = !r.Thorough()
 	fams = append(fams, big)
 
 	var perFam [][]item
@@ -982,6 +1061,33 @@ func main() {
 		opsOf[i] = []op{{kind: "tidy"}, {kind: "upgrade-all"}}
 		for _, q := range f.queries {
 			opsOf[i] = append(opsOf[i], op{kind: "get", q: q})
+		}
+		if f.noSpell {
+			continue
+		}
+		// non-canonical spellings: every latest/upgrade/patch/ref query, and the first version,
+		// range and prefix query of each path
+		v0 := map[string]bool{}
+		for _, q := range f.queries {
+			if q.Kind == "exact" && semver.Major(q.Arg) == "v0" {
+				v0[q.Path] = true
+			}
+		}
+		seen := map[string]bool{}
+		n := len(opsOf[i])
+		for ci := 2; ci < n; ci++ {
+			q := opsOf[i][ci].q
+			switch q.Kind {
+			case "none", "latest", "upgrade", "patch", "branch", "rev":
+			default:
+				if seen[q.Path+" "+q.Kind] {
+					continue
+				}
+				seen[q.Path+" "+q.Kind] = true
+			}
+			for _, sp := range spellings(q.Path, v0[q.Path]) {
+				opsOf[i] = append(opsOf[i], op{kind: "get", q: q, spell: sp, canon: ci})
+			}
 		}
 	}
 	ctx := context.Background()
@@ -1027,9 +1133,12 @@ func main() {
 	r.Extra["operations_hung"] = r.Get("hangs")
 	r.Extra["worker_restarts_after_hang"] = r.Get("worker-restarts-after-hang")
 	r.Extra["idempotence_checked"] = r.Get("idempotence-checked")
+	r.Extra["path_spellings_same_as_canonical"] = r.Get("spellings-agree")
+	r.Extra["path_spellings_rejected"] = r.Get("spellings-rejected")
 	r.Extra["sequences_covered"] = r.Get("sequences")
 	r.Extra["outcome_classes"] = r.Outcomes("classes")
 	r.Assumptions = []string{
+		"non-canonical spellings of a project path (explicit @v1/@v0 major, trailing slash, \"./\" before the last element; alone and followed by @<query>) are tried for every latest/upgrade/patch/branch/revision query and the first exact, range and prefix query of each path: the result must be an error or exactly the requirement map the canonical spelling returns",
 		"an operation is a function of (universe, requirement map): sequences are explored as a state graph, a requirement map reached twice is expanded once (resolver memo tables and the download cache are shared inside one universe; C10 covers their independence)",
 		"query reference: latest/no version = highest release tag of the path (v0/v1 share a path, vN>=2 is path@vN), else highest pre-release, else pseudo-version of the default branch head; upgrade = latest but never below current; patch = highest release with current's major.minor, never below current; exact = that tag; prefix vX.Y = highest release vX.Y.*, else highest pre-release; >,>=,<,<= = highest tag satisfying the comparison (pre-releases ordered by semver); branch/revision = the tag on exactly that revision, else a pseudo-version on the closest tagged ancestor",
 		"upgrade oracle: build list has the resolved version exactly when that is achievable (the version does not itself demand a newer version of the project), otherwise at least it; no other project missing or lower. downgrade oracle: project absent or at/below the requested version. a requirement whose path survives keeps its name; idempotence = the same operation applied to its own result returns the same map",
